@@ -38,8 +38,21 @@ RULE = (
     "negatives) on power-of-two schedules, so every level value, ratio and difference is exact in binary floating "
     "point and the rule is checked with exact equality including ratio == accuracy and difference == tolerance. "
     "Functions that vanish on all pixel centres are excluded by construction (the documented early exit makes the "
-    "result unspecified). Non-trivial = per-pixel sub-size not constant, or (iterate) at least two pixels stop at "
-    "different schedule levels; distinct = SHA-1 of the canonical case."
+    "result unspecified). Magnitude regime: every generated function (and the bin / iterate_exact values) is "
+    "multiplied by an exact power of two 2**k, k in [-120,60] (k=0 in about a quarter of the cases, tiny <1e-8 and "
+    "huge >1e8 classes each >=5%); all tolerances, tie bands and the absolute tolerance handed to the library are "
+    "relative to that unit (delta = 1e-9*max(2**k, max|f|), band of the absolute tolerance 1e-9*2**k+2*delta, bin "
+    "atol 1e-12*max|v| + 1e-300 for gradual underflow), and for binning / uniform over-sampling the result for 2**k*f must equal "
+    "2**k times the result for f bit for bit. reuse: several functions through the same sampler / grid object. "
+    "shared: ONE OverSamplingUniform / OverSamplingIterate / OverSamplingDataset instance used one after the other "
+    "for 2..4 geometries on masks up to 5x5 (same boolean pattern with other pixel scales and/or origin, same "
+    "shape with another pattern, then the first geometry again) through Grid2D.over_sampler, over_sampler_from, "
+    "GridsDataset and Imaging(...).grids; each visit is compared with the closed-form reference of ITS geometry: "
+    "sub-grid, sub-pixel areas, binned values, decorated uniform / iterated values, pixel-centre coordinates, and "
+    "the mask attached to samplers and results (array, pixel scales, origin exactly); failure keys carry the "
+    "relation (first / same-pattern / same-shape / revisit-first). Non-trivial = per-pixel sub-size not constant, "
+    "or (iterate) at least two pixels stop at different schedule levels, or (shared) at least one same-pattern "
+    "geometry with other scales/origin; distinct = SHA-1 of the canonical case."
 )
 ASSUMPTIONS = [
     "pixel (i,j) of an (H,W) frame is centred at (oy+((H-1)/2-i)*sy, ox+(j-(W-1)/2)*sx) (C02's closed form); "
@@ -55,13 +68,19 @@ ASSUMPTIONS = [
     "|difference| <= tolerance; a previous value that is zero or negative never meets",
     "generated function values are bounded (|f| <= ~1e4) with gradients <= ~2.4e3 per coordinate unit, so "
     "1e-9*max(1,max|f|) bounds the effect of coordinate rounding (<= 1e-13) on every level value",
+    "multiplying by 2**k (|k|<=120) is exact for every value involved (no generated value is subnormal after "
+    "scaling; the bit-exact scaling relation is skipped when the smallest non-zero magnitude would drop below "
+    "1e-280), so the level every pixel stops at is invariant under the scaling",
+    "a binned / iterated result is an Array2D whose mask is the geometry (array, pixel scales, origin) of the grid "
+    "or sampler that produced it",
     "numba is absent, so the @jit kernels run as plain Python (same source)",
 ]
 TECHNIQUE = ("property-based testing (Hypothesis) against a closed-form numpy reference model of the sub-grid, "
              "per-pixel means and the iterative stopping rule, plus exact dyadic boundary cases")
 
 COORD_ATOL = 1e-11   # coordinates are O(1e2): a handful of roundings of 1.4e-14 each
-VALUE_REL = 1e-9     # delta = VALUE_REL * max(1, max|f|), see ASSUMPTIONS
+VALUE_REL = 1e-9     # delta = VALUE_REL * max(unit, max|f|), see ASSUMPTIONS
+UNDERFLOW = 1e-300   # absolute floor for gradual underflow when generated values are themselves near 1e-308
 
 
 def _aa():
@@ -155,7 +174,19 @@ def functions(draw, frame, family=None):
         fn["zero_box"] = None
         if not np.any(R.feval(fn, c)):
             fn["terms"] = fn["terms"] + [{"k": "const", "c": 1.0}]
+    # magnitude regime: the whole function times an exact power of two (fluxes ~3e-10 are 2**-31.6)
+    fn["scale_pow2"] = draw(pow2s)
     return fn
+
+
+pow2s = st.one_of(st.just(0), st.integers(-120, 60), st.sampled_from([-120, -60, -40, -32, -31, -28, -27]),
+                  st.sampled_from([27, 33, 40, 60]))
+
+
+def _mag_label(ctx, vals):
+    v = np.asarray(vals, dtype=float)
+    top = float(np.abs(v).max()) if v.size else 0.0
+    ctx.label("mag:tiny(<1e-8)" if 0 < top < 1e-8 else "mag:huge(>1e8)" if top > 1e8 else "mag:unit-ish")
 
 
 extras = st.sampled_from([None, None, 2.0, -0.5, 3.25])
@@ -178,6 +209,7 @@ def bin_cases(draw):
     c["salt"] = draw(st.integers(0, 1000))
     c["affine"] = [draw(gens.reals(-5, 5)), draw(gens.reals(-5, 5)), draw(gens.reals(-10, 10))]
     c["const"] = draw(st.one_of(gens.reals(-100, 100), st.sampled_from([0.1, 1.0 / 3.0, 1e-3, 7.7])))
+    c["pow2"] = draw(pow2s)
     return c
 
 
@@ -233,6 +265,7 @@ def exact_cases(draw):
     c["values"] = rows
     c["frac"] = draw(st.sampled_from([1.0, 0.5, 0.5, 0.25, 0.125, 0.75, 0.3, 0.9, 0.0625]))
     c["rel"] = draw(st.sampled_from([None, None, None, 0.0, 0.25, 0.5, 1.0, 2.0, 3.0, 4.0, 6.0, 7.0]))
+    c["pow2"] = draw(pow2s)  # table values and the absolute tolerance are both multiplied by 2**pow2 (exact)
     return c
 
 
@@ -438,19 +471,35 @@ def body_bin(case, ctx):
         return osr.binned_array_2d_from(array=v.copy())
 
     # arbitrary values: per-pixel arithmetic mean of the pixel's own sub-values (every input form)
+    unit = 2.0 ** int(case.get("pow2", 0))
     base = np.asarray(case["base"], dtype=float)
-    values = base[owner] + case["amp"] * R.hash01(np.arange(N) + case["salt"])
+    values0 = base[owner] + case["amp"] * R.hash01(np.arange(N) + case["salt"])
+    values = values0 * unit  # exact scaling by a power of two
+    _mag_label(ctx, values)
     want = R.bin_mean(values, owner, n)
+    top = float(np.abs(values).max())
+    got_nd = None
     for form in BIN_FORMS:
         got = _values_of(ctx, impl_bin(values, form), n, "bin")
         if got is not None:
-            ctx.close(got, want, "bin/mean", atol=1e-12 * max(1.0, float(np.abs(values).max())),
-                      what="binned values (%s input) vs per-pixel mean (bincount)" % form)
+            # relative: a mean of <= 64 terms carries <= 64 roundings of the largest |value| (plus gradual
+            # underflow of products below the normal range, <= 64 * 5e-324)
+            ctx.close(got, want, "bin/mean", atol=1e-12 * top + UNDERFLOW,
+                      what="binned values (%s input, scale 2**%d) vs per-pixel mean (bincount)" % (form, case.get("pow2", 0)))
+            if form == "ndarray":
+                got_nd = got
+    # binning is linear: scaling the input by 2**k scales the output by exactly 2**k (no subnormals involved)
+    nz = np.abs(values0[values0 != 0])
+    if unit != 1.0 and got_nd is not None and nz.size and nz.min() * min(unit, 1.0) > 1e-280:
+        ctx.label("oracle:exact-scaling")
+        got0 = _values_of(ctx, impl_bin(values0, "ndarray"), n, "bin")
+        if got0 is not None:
+            ctx.equal(got_nd, got0 * unit, "bin/scaling", "binned(2**%d * v) vs 2**%d * binned(v)" % (case["pow2"], case["pow2"]))
     # constants are reproduced
-    c = float(case["const"])
+    c = float(case["const"]) * unit
     got = _values_of(ctx, impl_bin(np.full(N, c), "ndarray"), n, "bin")
     if got is not None:
-        ctx.close(got, np.full(n, c), "bin/constant", atol=1e-12 * max(1.0, abs(c)), what="binned constant")
+        ctx.close(got, np.full(n, c), "bin/constant", atol=1e-12 * abs(c) + UNDERFLOW, what="binned constant")
     # affine functions of position are reproduced at the pixel centres
     a, b, c0 = case["affine"]
     cen = R.centres(m, ps, origin)
@@ -522,13 +571,14 @@ def _decorated_one(ctx, case, kind, stack, m, ps, origin, mask):
     pts, owner = R.sub_grid(m, ps, origin, sub)
     fvals = gain * R.feval(fn, pts)
     want = R.bin_mean(fvals, owner, n)
-    delta = VALUE_REL * max(1.0, float(np.abs(fvals).max()))
+    unit = R.unit_of(fn)
+    delta = VALUE_REL * max(unit, float(np.abs(fvals).max()))  # relative to the function's magnitude
     key = "decorated/" + kind
     tag = "%s/%s" % (kind, stack)
 
     got = _values_of(ctx, out, n, key)
     if got is None:
-        return
+        return None
     ctx.close(got, want, key + "/values", atol=delta,
               what="%s: result vs mean of f on the reference sub-grid" % tag)
     if (s == 1).all():
@@ -544,6 +594,25 @@ def _decorated_one(ctx, case, kind, stack, m, ps, origin, mask):
         ctx.label("oracle:affine-at-centres")
         ctx.close(got, gain * R.feval(fn, R.centres(m, ps, origin)), key + "/affine", atol=delta,
                   what=tag + ": affine function reproduced at pixel centres")
+    return got
+
+
+def _scaling_relation(ctx, case, kind, stack, m, ps, origin, mask, got):
+    """Uniform over-sampling is linear in f: the result for 2**k * f is exactly 2**k times the result for f."""
+    fn = case["fn"]
+    unit = R.unit_of(fn)
+    if unit == 1.0 or got is None:
+        return
+    case0 = dict(case)
+    case0["fn"] = dict(fn, scale_pow2=0)
+    got0 = _decorated_one(ctx, case0, kind, stack, m, ps, origin, mask)
+    if got0 is None:
+        return
+    nz = np.abs(got0[got0 != 0])
+    if nz.size and nz.min() * min(unit, 1.0) > 1e-280:
+        ctx.label("oracle:exact-scaling")
+        ctx.equal(got, got0 * unit, "decorated/%s/scaling" % kind,
+                  "%s/%s: result for 2**%d*f vs 2**%d * result for f" % (kind, stack, fn["scale_pow2"], fn["scale_pow2"]))
 
 
 def body_decorated(case, ctx):
@@ -553,13 +622,17 @@ def body_decorated(case, ctx):
     _fn_labels(ctx, case["fn"])
     _sub_labels(ctx, sub, R.sub_list(m, sub))
     ctx.label("extra:none" if case["extra"] is None else "extra:gain")
+    _mag_label(ctx, R.feval(case["fn"], R.centres(m, ps, origin)))
     for stack in ("to_array", "bare"):
         if isinstance(sub, int):
             _decorated_one(ctx, case, "int", stack, m, ps, origin, mask)
-        _decorated_one(ctx, case, "array", stack, m, ps, origin, mask)
+        got = _decorated_one(ctx, case, "array", stack, m, ps, origin, mask)
+        if stack == "to_array":
+            _scaling_relation(ctx, case, "array", stack, m, ps, origin, mask, got)
         _decorated_one(ctx, case, "oversampled", stack, m, ps, origin, mask)
         _decorated_one(ctx, case, "adaptive", stack, m, ps, origin, mask)
-    _decorated_one(ctx, case, "sampler-obj", "-", m, ps, origin, mask)
+    got = _decorated_one(ctx, case, "sampler-obj", "-", m, ps, origin, mask)
+    _scaling_relation(ctx, case, "sampler-obj", "-", m, ps, origin, mask, got)
     _decorated_one(ctx, case, "sampler-noobj", "-", m, ps, origin, mask)
 
 
@@ -569,17 +642,20 @@ def body_decorated(case, ctx):
 ITER_ENTRIES = ("sampler", "decorator-to_array", "decorator-bare")
 
 
-def _run_iterate(case, entry, mask, prof, extra):
+def _run_iterate(case, entry, mask, prof, extra, rel="case"):
+    """`rel` is the absolute tolerance actually handed to the library (the case's value times the function's
+    magnitude unit); by default the case's own value."""
     aa = _aa()
     P = _profiles()
     steps = [int(v) for v in case["steps"]]
+    rel = case["rel"] if rel == "case" else rel
     if entry == "sampler":
-        osr = aa.OverSamplerIterate(mask=mask, fractional_accuracy=case["frac"], relative_accuracy=case["rel"],
+        osr = aa.OverSamplerIterate(mask=mask, fractional_accuracy=case["frac"], relative_accuracy=rel,
                                     sub_steps=steps)
         kw = {} if extra is None else {"gain": extra}
         return osr.array_via_func_from(P["raw"], prof, **kw)
     grid = aa.Grid2D.from_mask(mask=mask, over_sampling=aa.OverSamplingIterate(
-        fractional_accuracy=case["frac"], relative_accuracy=case["rel"], sub_steps=steps))
+        fractional_accuracy=case["frac"], relative_accuracy=rel, sub_steps=steps))
     method = prof.stacked if entry == "decorator-to_array" else prof.bare
     return _call(method, grid, extra)
 
@@ -637,16 +713,21 @@ def body_iterate(case, ctx):
     for sub in steps:
         pts, owner = R.sub_grid(m, ps, origin, sub)
         levels.append(R.bin_mean(gain * R.feval(fn, pts), owner, n))
-    scale = max(1.0, float(np.abs(plain).max()), max(float(np.abs(l).max()) for l in levels))
+    # everything is relative to the function's magnitude unit 2**scale_pow2: value error bound, tie bands and
+    # the absolute tolerance (the case's tolerance is given in units of the function)
+    unit = R.unit_of(fn)
+    scale = max(unit, float(np.abs(plain).max()), max(float(np.abs(l).max()) for l in levels))
     delta = VALUE_REL * scale
-    ref = R.iterate_ref(plain, levels, float(case["frac"]), case["rel"], delta, exact_zero=R.zero_pixels(fn, m))
+    rel = None if case["rel"] is None else float(case["rel"]) * unit
+    ref = R.iterate_ref(plain, levels, float(case["frac"]), rel, delta, exact_zero=R.zero_pixels(fn, m), unit=unit)
     _iterate_labels(ctx, case, ref, steps)
+    _mag_label(ctx, plain)
     ctx.tie(int(ref["tied"].sum()))
     ok = ~ref["tied"]
 
     for entry in ITER_ENTRIES:
         prof = P["cls"](lambda pts: R.feval(fn, pts))
-        out = _run_iterate(case, entry, mask, prof, extra)
+        out = _run_iterate(case, entry, mask, prof, extra, rel=rel)
         got = _values_of(ctx, out, n, "iterate")
         if got is None:
             continue
@@ -658,25 +739,28 @@ def body_iterate(case, ctx):
                      "%s: pixel %d: got %.17g, rule gives %.17g (level %d = sub-size %d of %s; plain %.17g, levels %s; "
                      "accuracy %r, tolerance %r, delta %.3g)" % (
                          entry, p, got[p], ref["out"][p], ref["stop"][p], steps[ref["stop"][p]], steps, plain[p],
-                         [float(l[p]) for l in levels], case["frac"], case["rel"], delta))
+                         [float(l[p]) for l in levels], case["frac"], rel, delta))
 
 
 def body_exact(case, ctx):
     P = _profiles()
     m, ps, origin, mask = _frame(case)
     steps = [int(v) for v in case["steps"]]
-    rows = np.asarray(case["values"], dtype=float)
+    unit = 2.0 ** int(case.get("pow2", 0))
+    rows = np.asarray(case["values"], dtype=float) * unit  # exact
     n = int((~m).sum())
     _frame_labels(ctx, m, ps, origin)
+    _mag_label(ctx, rows[:, 0])
     ij = np.argwhere(~m)
     tab = {"frame": {"shape": list(m.shape), "ps": list(ps), "origin": list(origin)}, "subs": [1] + steps,
            "values": {"%d,%d" % (ij[k, 0], ij[k, 1]): [float(v) for v in rows[k]] for k in range(n)}}
     plain = rows[:, 0]
     levels = [rows[:, k + 1] for k in range(len(steps))]
-    ref = R.iterate_ref(plain, levels, float(case["frac"]), case["rel"], 0.0)
+    frac = float(case["frac"])
+    rel = None if case["rel"] is None else float(case["rel"]) * unit  # exact
+    ref = R.iterate_ref(plain, levels, frac, rel, 0.0)
     _iterate_labels(ctx, case, ref, steps)
     # boundary classes: an exact tie on some pixel's path
-    frac, rel = float(case["frac"]), case["rel"]
     tie_ratio = np.zeros(n, dtype=bool)
     tie_abs = np.zeros(n, dtype=bool)
     for p in range(n):
@@ -695,7 +779,7 @@ def body_exact(case, ctx):
 
     for entry in ITER_ENTRIES:
         prof = P["cls"](lambda pts: R.table_eval(tab, pts))
-        out = _run_iterate(case, entry, mask, prof, None)
+        out = _run_iterate(case, entry, mask, prof, None, rel=rel)
         got = _values_of(ctx, out, n, "iterate_exact")
         if got is None:
             continue
@@ -763,9 +847,11 @@ def body_reuse(case, ctx):
         for sub in steps:
             pts, owner = R.sub_grid(m, ps, origin, sub)
             levels.append(R.bin_mean(R.feval(fn, pts), owner, n))
-        scale = max(1.0, float(np.abs(plain).max()), max(float(np.abs(l).max()) for l in levels))
+        unit = R.unit_of(fn)
+        scale = max(unit, float(np.abs(plain).max()), max(float(np.abs(l).max()) for l in levels))
         delta = VALUE_REL * scale
-        ref = R.iterate_ref(plain, levels, float(case["frac"]), case["rel"], delta, exact_zero=R.zero_pixels(fn, m))
+        ref = R.iterate_ref(plain, levels, float(case["frac"]), case["rel"], delta, exact_zero=R.zero_pixels(fn, m),
+                            unit=unit)
         ok = ~ref["tied"]
         ctx.tie(int(ref["tied"].sum()))
         if len(set(ref["stop"][ok].tolist())) >= 2:
@@ -798,3 +884,178 @@ def body_reuse(case, ctx):
 
 SUBCHECKS.append(SubCheck("reuse", body_reuse, strategy=reuse_cases(), examples={"quick": 200, "thorough": 4000},
                           shards={"quick": 2, "thorough": 8}))
+
+
+# ---------------------------------------------------------------------------------------------
+# shared: ONE configuration object (OverSamplingUniform / OverSamplingIterate / OverSamplingDataset) used
+# for several geometries one after the other: masks with the same boolean pattern but different pixel
+# scales and/or origin, masks of the same shape with another pattern, and the first geometry again at the
+# end.  Every grid / sampler / dataset must get its own sub-grid, areas, binned values and attached mask (a
+# sampler cached on the configuration object and keyed on too little hands back the first geometry's).
+# ---------------------------------------------------------------------------------------------
+@st.composite
+def shared_cases(draw):
+    base = draw(frames(hi=5))
+    h, w = len(base["mask"]), len(base["mask"][0])
+    sy, sx = base["pixel_scales"]
+    oy, ox = base["origin"]
+    geos = [dict(base, relation="first")]
+    for _ in range(draw(st.integers(1, 3))):
+        relation = draw(st.sampled_from(["same-pattern", "same-pattern", "same-pattern", "same-shape"]))
+        vary = draw(st.sampled_from(["scales", "origin", "both"]))
+        fy = fx = 1.0
+        dy = dx = 0.0
+        if vary in ("scales", "both"):
+            fy = draw(st.sampled_from([0.5, 2.0, 1.5, 1.0]))
+            fx = draw(st.sampled_from([0.5, 2.0, 1.5])) if fy == 1.0 else draw(st.sampled_from([0.5, 2.0, 1.5, 1.0, fy]))
+        if vary in ("origin", "both"):
+            dy = draw(st.sampled_from([0.0, 1.0, -2.5, 0.5, 7.0]))
+            dx = draw(st.sampled_from([1.0, -2.5, 0.5, 7.0])) if dy == 0.0 else draw(st.sampled_from([0.0, 1.0, -2.5, 0.5]))
+        mask = base["mask"] if relation == "same-pattern" else draw(gens.masks(shape=[h, w]))
+        geos.append({"mask": mask, "pixel_scales": [sy * fy, sx * fx], "origin": [oy + dy * sy, ox + dx * sx],
+                     "relation": relation, "vary": vary})
+    c = {"geos": geos}
+    n0 = _n_unmasked(base["mask"])
+    same_n = all(_n_unmasked(g["mask"]) == n0 for g in geos)
+    # a per-pixel map can only be shared between masks with the same number of unmasked pixels
+    if same_n and draw(st.booleans()):
+        c["sub"] = draw(st.lists(st.integers(1, 4), min_size=n0, max_size=n0))
+    else:
+        c["sub"] = draw(st.integers(1, 4))
+    c["sub_pix"] = draw(st.integers(1, 4))
+    c["sub_non"] = draw(st.integers(1, 4))
+    c["steps"] = draw(schedules())
+    c["frac"] = draw(st.sampled_from([0.5, 0.9, 0.99, 0.999, 0.9999, 0.8, 0.95]))
+    c["rel"] = draw(st.one_of(st.none(), st.none(), st.sampled_from([1e-4, 1e-3, 1e-2, 0.1])))
+    fn = draw(functions(base, family=draw(st.sampled_from(["profile", "profile", "mixed"]))))
+    fn["zero_box"] = None  # pixel boxes belong to one geometry; keep the function smooth across all of them
+    c["fn"] = fn
+    c["salt"] = draw(st.integers(0, 1000))
+    return c
+
+
+def _same_mask(ctx, obj, m, ps, origin, key, what):
+    """The mask attached to a sampler / result is the geometry it was asked for (array, scales, origin)."""
+    om = getattr(obj, "mask", None)
+    ok = om is not None
+    if ok:
+        a = np.asarray(om)
+        ok = a.shape == m.shape and bool(np.array_equal(a.astype(bool), m))
+        ok = ok and tuple(float(v) for v in om.pixel_scales) == tuple(ps)
+        ok = ok and tuple(float(v) for v in om.origin) == tuple(origin)
+    ctx.check(ok, key, "%s: attached mask is not the requested geometry (want scales %s origin %s): got %s / %s" % (
+        what, ps, origin, getattr(om, "pixel_scales", None), getattr(om, "origin", None)))
+
+
+def body_shared(case, ctx):
+    aa = _aa()
+    P = _profiles()
+    from autoarray.dataset.grids import GridsDataset
+    geos = case["geos"]
+    fn = case["fn"]
+    unit = R.unit_of(fn)
+    steps = [int(v) for v in case["steps"]]
+    sub, sub_pix, sub_non = case["sub"], int(case["sub_pix"]), int(case["sub_non"])
+    rel = None if case["rel"] is None else float(case["rel"]) * unit
+    m0, ps0, origin0, mask0 = _frame(geos[0])
+
+    # the shared configuration objects, built once
+    U = aa.OverSamplingUniform(sub_size=_sub_arg(mask0, sub))
+    IT = aa.OverSamplingIterate(fractional_accuracy=case["frac"], relative_accuracy=rel, sub_steps=steps)
+    DS = aa.OverSamplingDataset(uniform=U, non_uniform=aa.OverSamplingUniform(sub_size=sub_non),
+                                pixelization=aa.OverSamplingUniform(sub_size=sub_pix))
+    ctx.label("sub:list" if not isinstance(sub, int) else "sub:int", "geos:%d" % len(geos))
+    _mag_label(ctx, R.feval(fn, R.centres(m0, ps0, origin0)))
+
+    order = list(range(len(geos))) + [0]
+    for visit, gi in enumerate(order):
+        g = geos[gi]
+        relation = "revisit-first" if visit == len(order) - 1 else g["relation"]
+        ctx.label("relation:" + relation)
+        if g.get("vary"):
+            ctx.label("vary:" + g["vary"])
+        m, ps, origin, mask = _frame(g)
+        n = int((~m).sum())
+        pts, owner = R.sub_grid(m, ps, origin, sub)
+        cen = R.centres(m, ps, origin)
+        prof = P["cls"](lambda p: R.feval(fn, p))
+        fvals = R.feval(fn, pts)
+        want = R.bin_mean(fvals, owner, n)
+        delta = VALUE_REL * max(unit, float(np.abs(fvals).max()))
+
+        # --- shared OverSamplingUniform -----------------------------------------------------
+        k = "shared/uniform/" + relation
+        grid = aa.Grid2D.from_mask(mask=mask, over_sampling=U)
+        for name, osr in (("Grid2D.over_sampler", grid.over_sampler), ("over_sampler_from", U.over_sampler_from(mask=mask))):
+            _compare_grid(ctx, osr.over_sampled_grid, pts, k + "/grid", name)
+            _same_mask(ctx, osr, m, ps, origin, k + "/mask", name)
+            areas = np.asarray(osr.sub_pixel_areas, dtype=float)
+            s = R.sub_list(m, sub)
+            ctx.close(areas, (ps[0] * ps[1]) / s[owner].astype(float) ** 2, k + "/areas", rtol=1e-13,
+                      what=name + ": sub-pixel areas")
+            vals = R.hash01(np.arange(len(owner)) + case["salt"]) * unit
+            out = osr.binned_array_2d_from(array=vals.copy())
+            got = _values_of(ctx, out, n, k)
+            if got is not None:
+                ctx.close(got, R.bin_mean(vals, owner, n), k + "/binned", atol=1e-12 * float(np.abs(vals).max()) + UNDERFLOW,
+                          what=name + ": binned values")
+                _same_mask(ctx, out, m, ps, origin, k + "/mask", name + " binned result")
+        out = _call(prof.stacked, grid, None)
+        got = _values_of(ctx, out, n, k)
+        if got is not None:
+            ctx.close(got, want, k + "/values", atol=delta, what="decorated function on Grid2D sharing the OverSamplingUniform")
+            _same_mask(ctx, out, m, ps, origin, k + "/mask", "decorated result")
+
+        # --- shared OverSamplingDataset -------------------------------------------------------
+        k = "shared/dataset/" + relation
+        ones = aa.Array2D(values=np.ones(n), mask=mask)
+        imaging = aa.Imaging(data=ones, noise_map=ones, over_sampling=DS)
+        for name, gd in (("GridsDataset", GridsDataset(mask=mask, over_sampling=DS)), ("Imaging.grids", imaging.grids)):
+            ctx.close(np.asarray(gd.uniform.slim, dtype=float), cen, k + "/pixel-centres", atol=COORD_ATOL,
+                      what=name + ".uniform coordinates vs pixel centres")
+            _compare_grid(ctx, gd.uniform.over_sampler.over_sampled_grid, pts, k + "/grid", name + ".uniform.over_sampler")
+            _compare_grid(ctx, gd.over_sampler_pixelization.over_sampled_grid, R.sub_grid(m, ps, origin, sub_pix)[0],
+                          k + "/grid", name + ".over_sampler_pixelization")
+            _compare_grid(ctx, gd.over_sampler_non_uniform.over_sampled_grid, R.sub_grid(m, ps, origin, sub_non)[0],
+                          k + "/grid", name + ".over_sampler_non_uniform")
+            _same_mask(ctx, gd.over_sampler_pixelization, m, ps, origin, k + "/mask", name + ".over_sampler_pixelization")
+            got = _values_of(ctx, _call(prof.stacked, gd.uniform, None), n, k)
+            if got is not None:
+                ctx.close(got, want, k + "/values", atol=delta, what="decorated function on %s.uniform" % name)
+
+        # --- shared OverSamplingIterate ---------------------------------------------------------
+        k = "shared/iterate/" + relation
+        plain = R.feval(fn, cen)
+        if not np.any(plain):
+            ctx.label("excluded:all-zero-centres")
+            ctx.tie(n)
+            continue
+        levels = []
+        for st_ in steps:
+            p_, o_ = R.sub_grid(m, ps, origin, st_)
+            levels.append(R.bin_mean(R.feval(fn, p_), o_, n))
+        scale = max(unit, float(np.abs(plain).max()), max(float(np.abs(l).max()) for l in levels))
+        d_it = VALUE_REL * scale
+        ref = R.iterate_ref(plain, levels, float(case["frac"]), rel, d_it, unit=unit)
+        ok = ~ref["tied"]
+        ctx.tie(int(ref["tied"].sum()))
+        grid_it = aa.Grid2D.from_mask(mask=mask, over_sampling=IT)
+        sampler = IT.over_sampler_from(mask=mask)
+        _same_mask(ctx, sampler, m, ps, origin, k + "/mask", "OverSamplingIterate.over_sampler_from")
+        for name, out in (("decorated on Grid2D", _call(prof.stacked, grid_it, None)),
+                          ("over_sampler_from().array_via_func_from", sampler.array_via_func_from(P["raw"], prof))):
+            got = _values_of(ctx, out, n, k)
+            if got is None:
+                continue
+            _same_mask(ctx, out, m, ps, origin, k + "/mask", name + " result")
+            bad = ok & ~(np.abs(got - ref["out"]) <= d_it)
+            ctx.comparisons += int(ok.sum())
+            if bad.any():
+                p = int(np.argmax(bad))
+                ctx.fail(k + "/values", "%s sharing the OverSamplingIterate: pixel %d: got %.17g, rule gives %.17g "
+                         "(levels %s of %s)" % (name, p, got[p], ref["out"][p], [float(l[p]) for l in levels], steps))
+    ctx.nt(any(g["relation"] == "same-pattern" for g in geos[1:]))
+
+
+SUBCHECKS.append(SubCheck("shared", body_shared, strategy=shared_cases(), examples={"quick": 150, "thorough": 3000},
+                          shards={"quick": 2, "thorough": 6}))
